@@ -53,6 +53,18 @@ func dumpSnapshot(ss moss.Snapshot) (*Node, error) {
 				it.Close()
 				return nil, fmt.Errorf("iterator Current: %v", err)
 			}
+			if len(k) >= bigKeyMin {
+				// boundary-length entry, judged by checkBig
+				err = it.Next()
+				if err == moss.ErrIteratorDone {
+					break
+				}
+				if err != nil {
+					it.Close()
+					return nil, fmt.Errorf("iterator Next: %v", err)
+				}
+				continue
+			}
 			if _, dup := n.KV[string(k)]; dup {
 				it.Close()
 				return nil, fmt.Errorf("iterator yielded key %q twice", string(k))
@@ -160,7 +172,19 @@ func equalContent(ss moss.Snapshot, want *Node, probes []string, path string) *m
 				return &mismatch{Path: path, Key: string(k), Kind: "order", Detail: fmt.Sprintf("iteration not strictly ascending: %q after %q", string(k), string(prev))}
 			}
 			first = false
-			prev = append(prev[:0], k...)
+			if len(k) >= bigKeyMin {
+				prev = k // stays valid while the snapshot is open; not worth a 16 MiB copy
+				// boundary-length entry, judged by checkBig
+				err = it.Next()
+				if err == moss.ErrIteratorDone {
+					break
+				}
+				if err != nil {
+					return &mismatch{Path: path, Kind: "error", Detail: fmt.Sprintf("iterator Next: %v", err)}
+				}
+				continue
+			}
+			prev = append([]byte(nil), k...)
 			if i >= len(wk) || wk[i] != string(k) {
 				if _, live := want.KV[string(k)]; !live {
 					return &mismatch{Path: path, Key: string(k), Kind: "extra", Detail: fmt.Sprintf("iteration yields %q=%q, reference has no such key", string(k), string(v))}
